@@ -180,6 +180,27 @@ var c14Codec = probe.Define("C14", "codec", func(t *rapid.T) c14In {
 	if got2, err := bridge.FromLibEAP(back); err != nil || !got2.Equal(e) {
 		return probe.Fail("values read back from the decoded packet changed when the receive buffer was overwritten")
 	}
+	// a second, independently decoded copy of the same packet is a separate message: setting an attribute on one of them
+	// (a receiver building its answer in place) must not show up in the other
+	if e.Kind == model.EAka {
+		other := new(eap.EAP)
+		if err := probe.Try(func() error { return other.Unmarshal(probe.Exact(w)) }); err != nil {
+			return probe.Fail("second Unmarshal of the encoding: %v", err)
+		}
+		ak := back.EapTypeData.(*eap.EapAkaPrime)
+		for _, ty := range []eap.EapAkaPrimeAttrType{eap.AT_KDF, eap.AT_RES} {
+			if err := probe.Try(func() error { return ak.SetAttr(ty, []byte{0xa5, 0x5a, 0xa5, 0x5a}[:2+2*int(ty&1)]) }); err != nil {
+				return probe.Fail("SetAttr(%d) on a decoded packet: %v", ty, err)
+			}
+		}
+		var w5 []byte
+		if err := probe.Try(func() error { var x error; w5, x = other.Marshal(); return x }); err != nil || !bytes.Equal(w, w5) {
+			return probe.Fail("setting attributes on one decoded packet changed another, separately decoded packet: its encoding is now %x, was %x (%v)", w5, w, err)
+		}
+		if got3, err := bridge.FromLibEAP(other); err != nil || !got3.Equal(e) {
+			return probe.Fail("setting attributes on one decoded packet changed the values read from another, separately decoded packet")
+		}
+	}
 	labels := []string{"eap:" + e.Kind}
 	nontrivial := false
 	if e.Kind == model.EAka {
